@@ -127,9 +127,12 @@ class Build:
             args = []
             for l in syms:
                 p = l.split()
-                if len(p) == 3 and p[1] in 'tdbr' and '.' not in p[2]:
+                if len(p) == 3 and p[1] == 't' and '.' not in p[2]:
                     m = '__CPROVER_file_local_%s_c_%s' % (u, p[2])
                     args += ['--redefine-sym', '%s=%s' % (p[2], m), '--globalize-symbol', m]
+                elif len(p) == 3 and p[1] in 'dbr' and '.' not in p[2]:
+                    # goto-cc keeps file-scope static *variables* under their plain name
+                    args += ['--globalize-symbol', p[2]]
             r = sh(['objcopy'] + args + [o])
             if r.returncode:
                 return u + ': objcopy: ' + r.stderr
